@@ -465,7 +465,7 @@ func (e ErrSpec) isNil() bool {
 	return c == codes.OK
 }
 
-var statusMsgs = []string{"", "plain words", "a:b:c", "100% sure", "%41%zz", "naïve café ☃", "line1\nline2", "cr\rlf\r\n", " padded ", "\tTab", "bad\xffutf8\xc0", "trail:"}
+var statusMsgs = []string{"", "plain words", "upstream said: \xff\xfe\xfd", "a:b:c", "100% sure", "%41%zz", "naïve café ☃", "line1\nline2", "cr\rlf\r\n", " padded ", "\tTab", "bad\xffutf8\xc0", "trail:"}
 
 func genStatusMsg(t *rapid.T, label string) []byte {
 	return []byte(rapid.OneOf(rapid.SampledFrom(statusMsgs), rapid.StringMatching(`[ -~]{0,30}`), rapid.Just(strings.Repeat("long ", 800))).Draw(t, label))
@@ -480,7 +480,11 @@ func genErr(t *rapid.T, label string) ErrSpec {
 	case k < 8:
 		e := ErrSpec{Kind: "status", Msg: genStatusMsg(t, label+"-msg")}
 		e.Code = rapid.OneOf(rapid.Uint32Range(1, 16), rapid.SampledFrom(oddCodes)).Draw(t, label+"-code")
-		if rapid.IntRange(0, 2).Draw(t, label+"-hasdet") == 0 {
+		hasDet := rapid.IntRange(0, 2).Draw(t, label+"-hasdet") == 0
+		if sanitizeMsg(string(e.Msg)) != string(e.Msg) && rapid.Bool().Draw(t, label+"-detbadmsg") {
+			hasDet = true // details next to a message that is not valid UTF-8: drawn more often than chance would
+		}
+		if hasDet {
 			n := rapid.IntRange(1, 3).Draw(t, label+"-ndet")
 			for i := 0; i < n; i++ {
 				e.Details = append(e.Details, genAny(t, label+"-det"))
